@@ -133,6 +133,20 @@ func (conn *Conn) Password() (string, bool) {
 	return conn.password, conn.hasPassword
 }
 
+// presentCredentials sets the user name and the password to the connection and
+// returns a function which puts the previous ones back.
+func (conn *Conn) presentCredentials(username string, password string) func() {
+	conn.stateMutex.Lock()
+	defer conn.stateMutex.Unlock()
+	oldUsername, oldPassword, oldHasPassword := conn.username, conn.password, conn.hasPassword
+	conn.username, conn.password, conn.hasPassword = username, password, true
+	return func() {
+		conn.stateMutex.Lock()
+		defer conn.stateMutex.Unlock()
+		conn.username, conn.password, conn.hasPassword = oldUsername, oldPassword, oldHasPassword
+	}
+}
+
 // Timestamp returns the creation time of the connection.
 func (conn *Conn) Timestamp() time.Time {
 	return conn.ts
